@@ -390,6 +390,33 @@ func (c *Ctx) guardKinds(fn *ssa.Function, blk *ssa.BasicBlock) []string {
 		}
 		out = append(out, c.condKinds(iff.Cond, 0)...)
 	}
+	// a disjunction `A || B`: the guarded block has several predecessors, each
+	// of which enters it by the TRUE edge of its own test; the block is
+	// guarded by the disjunction when every way in is such an edge and every
+	// disjunct is a recognised test
+	for _, t := range fn.Blocks {
+		if len(t.Preds) < 2 || !(t == blk || t.Dominates(blk)) {
+			continue
+		}
+		var kinds []string
+		all := true
+		for _, p := range t.Preds {
+			iff, ok := p.Instrs[len(p.Instrs)-1].(*ssa.If)
+			if !ok || p.Succs[0] != t || p.Succs[1] == t {
+				all = false
+				break
+			}
+			ks := c.condKinds(iff.Cond, 0)
+			if len(ks) == 0 {
+				all = false
+				break
+			}
+			kinds = append(kinds, ks...)
+		}
+		if all {
+			out = append(out, kinds...)
+		}
+	}
 	return out
 }
 
@@ -589,12 +616,42 @@ func ruleC02b(c *Ctx) []*report.Result {
 						r.Fail(construct, pos, "the safe override is installed without a recognised declassifier on its success edge (guards seen: "+strings.Join(kinds, ", ")+"): values not declared safe would be printed outside the markers", nil, "")
 					}
 				} else {
-					ok := false
-					for _, k := range kinds {
-						if k == "assert:rstring" || k == "assert:rbytes" || k == "type==rstring" || k == "type==rbytes" {
-							ok = true
+					var rawJustified func(fn *ssa.Function, b *ssa.BasicBlock, depth int) bool
+					rawJustified = func(fn *ssa.Function, b *ssa.BasicBlock, depth int) bool {
+						for _, k := range c.guardKinds(fn, b) {
+							if k == "assert:rstring" || k == "assert:rbytes" || k == "type==rstring" || k == "type==rbytes" {
+								return true
+							}
 						}
+						// an unexported helper of the printer (a raw-write wrapper):
+						// justified when every one of its call sites is
+						if depth < 2 && recvNamed(fn) == tPP && fn.Object() != nil && !fn.Object().Exported() && fn.Parent() == nil {
+							n := 0
+							for _, g := range c.P.ModuleFunctions() {
+								for _, gb := range g.Blocks {
+									for _, gi := range gb.Instrs {
+										if ci, ok := gi.(ssa.CallInstruction); ok && ci.Common().StaticCallee() == fn {
+											n++
+											if !rawJustified(g, gb, depth+1) {
+												return false
+											}
+										}
+										// the helper taken as a value has callers we cannot see
+										for _, op := range gi.Operands(nil) {
+											if *op == ssa.Value(fn) {
+												if ci, ok := gi.(ssa.CallInstruction); !ok || ci.Common().Value != *op {
+													return false
+												}
+											}
+										}
+									}
+								}
+							}
+							return n > 0
+						}
+						return false
 					}
+					ok := rawJustified(fn, b, 0)
 					if ok {
 						r.Ok(construct + " guarded by a redactable type @" + pos)
 					} else {
@@ -1017,6 +1074,72 @@ func ruleC05g(c *Ctx) []*report.Result {
 						}
 					}
 				}
+				if !okDyn {
+					// the lookup need not dominate the dispatch: in `A || registry[T]`
+					// it is skipped when A already decided. What matters is that no
+					// path from the store to the dispatch avoids BOTH the lookup with
+					// the dynamic type and an installation of the safe override.
+					safeFam, _ := c.installers("override", 1)
+					stop := map[*ssa.BasicBlock]bool{}
+					lookups := 0
+					for _, lb := range fn.Blocks {
+						for _, li := range lb.Instrs {
+							if key, ok := c.registryKey(li); ok {
+								if tc, ok := key.(*ssa.Call); ok {
+									if f := tc.Common().StaticCallee(); f != nil && f.String() == "reflect.TypeOf" {
+										arg := tc.Common().Args[0]
+										dyn := arg == ifaceVal
+										if u, ok := arg.(*ssa.UnOp); ok {
+											if fa, ok := u.X.(*ssa.FieldAddr); ok && fieldName(fa) == "arg" {
+												dyn = true
+											}
+										}
+										if dyn {
+											stop[lb] = true
+											lookups++
+										}
+									}
+								}
+							}
+							if ci, ok := li.(ssa.CallInstruction); ok {
+								if f := ci.Common().StaticCallee(); f != nil {
+									if _, inst := safeFam[f]; inst {
+										stop[lb] = true
+									}
+								}
+							}
+						}
+					}
+					if lookups > 0 && !stop[storeBlk] {
+						seen := map[*ssa.BasicBlock]bool{}
+						var dfs func(x *ssa.BasicBlock) bool
+						dfs = func(x *ssa.BasicBlock) bool {
+							if x == b {
+								return true
+							}
+							if seen[x] || stop[x] {
+								return false
+							}
+							seen[x] = true
+							for _, sx := range x.Succs {
+								if dfs(sx) {
+									return true
+								}
+							}
+							return false
+						}
+						escaped := false
+						for _, sx := range storeBlk.Succs {
+							if dfs(sx) {
+								escaped = true
+							}
+						}
+						if storeBlk == b {
+							escaped = true
+						}
+						okDyn = !escaped
+					}
+				}
 				r.Check(okDyn, shortFn(fn.String())+" / registry consulted with the dispatched value's type", c.P.Pos(call.Pos()), "the registry is looked up only with the static type X.Type(); for X of interface kind the dispatched value X.Interface() has another (dynamic) type: a registered safe type with a String/Error/Format method inside []interface{} or map[...]interface{} is printed as unsafe")
 			}
 		}
@@ -1066,19 +1189,23 @@ func ruleC06g(c *Ctx) []*report.Result {
 			if !ok {
 				continue
 			}
-			side, what := "", "wrapper"
-			for _, k := range c.condKinds(iff.Cond, 0) {
-				switch {
-				case k == "type==safewrap" || k == "assert:safewrap":
-					side = "safe"
-				case k == "type==unsafewrap" || k == "assert:unsafewrap":
-					side = "unsafe"
-				case strings.HasPrefix(k, "registry:"):
-					side, what = "safe", "registered type"
-				case k == "assert:safevalue":
-					side, what = "safe", "SafeValue"
+			sideOf := func(cond ssa.Value) (string, string) {
+				side, what := "", "wrapper"
+				for _, k := range c.condKinds(cond, 0) {
+					switch {
+					case k == "type==safewrap" || k == "assert:safewrap":
+						side = "safe"
+					case k == "type==unsafewrap" || k == "assert:unsafewrap":
+						side = "unsafe"
+					case strings.HasPrefix(k, "registry:"):
+						side, what = "safe", "registered type"
+					case k == "assert:safevalue":
+						side, what = "safe", "SafeValue"
+					}
 				}
+				return side, what
 			}
+			side, what := sideOf(iff.Cond)
 			if side == "" {
 				continue
 			}
@@ -1098,7 +1225,25 @@ func ruleC06g(c *Ctx) []*report.Result {
 			}
 			construct := name + " / " + side + " " + what + " recognised @" + c.P.Pos(firstPos(T))
 			var region []*ssa.BasicBlock
-			if len(T.Preds) == 1 { // otherwise the success edge joins other paths at once: nothing is done for the wrapper
+			// the success edge must not join other paths at once (nothing would be
+			// done for the wrapper) — unless every way into T is the success edge
+			// of a test of the same side: a disjunction `A || B`
+			exclusive := len(T.Preds) == 1
+			if !exclusive {
+				exclusive = true
+				for _, pb := range T.Preds {
+					pif, ok := pb.Instrs[len(pb.Instrs)-1].(*ssa.If)
+					if !ok || pb.Succs[0] != T || pb.Succs[1] == T {
+						exclusive = false
+						break
+					}
+					if ps, _ := sideOf(pif.Cond); ps != side {
+						exclusive = false
+						break
+					}
+				}
+			}
+			if exclusive {
 				for _, x := range fn.Blocks {
 					if x == T || T.Dominates(x) {
 						region = append(region, x)
@@ -1122,7 +1267,7 @@ func ruleC06g(c *Ctx) []*report.Result {
 					}
 				}
 			}
-			if inst == nil && pure && len(T.Preds) == 1 {
+			if inst == nil && pure && exclusive {
 				// a classification function: the decision leaves as data —
 				// the constant of that side on an edge into a returned value —
 				// and is installed by the caller (whose site C02.b holds to it)
